@@ -158,3 +158,52 @@ package oned
 //@   globals ean13Reader_FIRST_DIGIT_ENCODINGS
 //@   let t = ean13Reader_FIRST_DIGIT_ENCODINGS
 //@   ensures t[0] == 0 && t[1] == 11 && t[2] == 13 && t[3] == 14 && t[4] == 19 && t[5] == 25 && t[6] == 28 && t[7] == 21 && t[8] == 22 && t[9] == 26
+
+// ---------------------------------------------------------------- 1-D rendering geometry (C14, C12)
+// out = max(width, n+margin) pixels hold n modules at the integer scale mult = out/(n+margin), centred
+//@ lemma renderFit(out int, n int, m int)
+//@   property C14 C12
+//@   opt nia=on
+//@   requires n >= 1 && m >= 0 && out >= n + m
+//@   ensures out / (n + m) >= 1 && n * (out / (n + m)) <= out && n * (out / (n + m)) >= n
+//@ lemma mulSucc(a int, b int)
+//@   property C14 C12
+//@   opt nia=on
+//@   ensures (a + 1) * b == a * b + b
+//@ lemma mulMono(a int, b int, c int)
+//@   property C14 C12
+//@   opt nia=on
+//@   requires a <= b && c >= 0
+//@   ensures a * c <= b * c
+
+//@ func onedWriter_renderResult(code []bool, width int, height int, sidesMargin int) (r *gozxing.BitMatrix, e error)
+//@   property C14 C12
+//@   requires len(code) >= 1 && sidesMargin >= 0
+//@   use renderFit(max(width, len(code) + sidesMargin), len(code), sidesMargin)
+//@   let n = len(code)
+//@   let out = max(width, n + sidesMargin)
+//@   let mult = out / (n + sidesMargin)
+//@   ensures e == nil && r != nil && gozxing.wfBM(r) && r.width == out && r.height == max(1, height)
+//@   assert call(SetRegion, 0): multiple == mult && multiple >= 1 && leftPadding == (out - n * mult) / 2 && 0 <= outputX && outputX + multiple <= output.width && outputHeight == output.height && outputX == leftPadding + inputX * multiple
+//@   loop 0: invariant output != nil && gozxing.wfBM(output) && output.width == out && output.height == outputHeight && outputHeight == max(1, height) && inputWidth == n
+//@   loop 0: invariant multiple == mult && multiple >= 1 && leftPadding == (out - n * mult) / 2 && 0 <= leftPadding
+//@   loop 0: invariant 0 <= inputX && inputX <= n && outputX == leftPadding + inputX * multiple
+//@   loop 0: use mulSucc(inputX, multiple)
+//@   loop 0: use mulMono(inputX + 1, n, multiple)
+//@   loop 0: use mulMono(0, inputX, multiple)
+//@   loop 0: decreases n - inputX
+
+// ---------------------------------------------------------------- 1-D writer front end (C12)
+// interface contract of the per-symbology encoders: a module array of at least one module or an error (assumed for the
+// implementers that are not verified against it individually)
+//@ func (encoder) encodeWithHints(contents string, hints map[gozxing.EncodeHintType]interface{}) (r []bool, e error)
+//@   property C12
+//@   ensures e == nil ==> 1 <= len(r)
+//@   ensures e != nil ==> true
+//@   modifies nothing
+
+//@ func (this *OneDimensionalCodeWriter) Encode(contents string, format gozxing.BarcodeFormat, width int, height int, hints map[gozxing.EncodeHintType]interface{}) (r *gozxing.BitMatrix, e error)
+//@   property C12
+//@   requires this.encoder != nil && 0 <= this.defaultMargin
+//@   ensures (r != nil) != (e != nil)
+//@   ensures r != nil ==> r.width >= width && r.height >= height && r.height >= 1
